@@ -45,6 +45,7 @@ class Contract:
         self.reads_only = False
         self.unfold = None
         self.traces = False
+        self.raises_msg = {}     # exception name -> lambda over the message
         for s in node.body:
             if isinstance(s, ast.Expr) and isinstance(s.value, ast.Constant):
                 continue
@@ -94,6 +95,8 @@ class Contract:
                 self.sorts[c.args[0].value] = c.args[1].value
             elif k == 'result_sort':
                 self.results = c.args[0].value
+            elif k == 'raises_msg':
+                self.raises_msg[c.args[0].id] = c.args[1]
             elif k == 'traces':
                 self.traces = True
             elif k == 'unfold':
